@@ -134,6 +134,11 @@ func c02exec(c *h.Ctx, cs *h.Case) {
 			// Tree.List is pre-order: root, (mid,) children — the same order as the ops use
 			to = fix.TokenFor(ct.t, ct.target, round)
 			cs.Impl = append(cs.Impl, "ok")
+		case len(tk) == 2 && tk[1] == "rereg":
+			// an equal copy of the tree replaces the stored Tree object
+			k := len(ct.target.Children)
+			f.cl.Overlay(ct.srv).RegisterTree(f.freshCopy(isRoot, k))
+			cs.Impl = append(cs.Impl, "ok")
 		case len(tk) == 6 && tk[1] == "msg":
 			ty, _ := strconv.Atoi(tk[2])
 			v, _ := strconv.Atoi(tk[5])
@@ -273,6 +278,9 @@ func c02gen(c *h.Ctx, yield func(*h.Case)) {
 		ss, ps := senders(root, k), peers(root, k)
 		for j := 0; j < 4+r.Intn(5*k); j++ {
 			val++
+			if r.Intn(9) == 0 {
+				cs.Ops = append(cs.Ops, "c02 rereg")
+			}
 			s := ss[r.Intn(len(ss))]
 			p := ps[r.Intn(len(ps))]
 			if r.Intn(3) > 0 && s != "-" && s != "90" && s != "99" {
